@@ -73,17 +73,18 @@ type Prop struct {
 }
 
 type Run struct {
-	P        *Prop
-	Tier     string
-	Seed     int64
-	Cases    []spec.Case
-	Events   map[int][]spec.Event
-	Deaths   map[int]*Death
-	Results  map[int]*CaseResult
-	Extra    map[string]any
-	Counters map[string]int
-	Inconcl  []string
-	Viol     []struct {
+	P           *Prop
+	Tier        string
+	Seed        int64
+	Cases       []spec.Case
+	Events      map[int][]spec.Event
+	Deaths      map[int]*Death
+	Results     map[int]*CaseResult
+	Extra       map[string]any
+	Counters    map[string]int
+	Inconcl     []string // run-level: too little observed, hook never hit, ...
+	CaseInconcl []string // single cases the harness could not carry out
+	Viol        []struct {
 		Case int
 		V    Violation
 	}
@@ -458,7 +459,7 @@ func (r *Run) judge() {
 			}{c.ID, v})
 		}
 		if res.Verdict == "inconclusive" {
-			r.Inconcl = append(r.Inconcl, fmt.Sprintf("case %d: %s", c.ID, res.Inconcl))
+			r.CaseInconcl = append(r.CaseInconcl, fmt.Sprintf("case %d: %s", c.ID, res.Inconcl))
 		}
 	}
 	// a child that died with several cases in flight whose death did not
@@ -626,6 +627,7 @@ func (r *Run) report(wall time.Duration, isReplay bool) int {
 		"known_findings_seen": knownSeen,
 		"slow_cases":          slow,
 		"race_log_files":      len(r.RaceLogs),
+		"inconclusive_cases":  len(r.CaseInconcl),
 	}
 	for k, v := range r.Extra {
 		cov[k] = v
@@ -641,9 +643,21 @@ func (r *Run) report(wall time.Duration, isReplay bool) int {
 		os.WriteFile(filepath.Join(root, "evidence", p.ID+".json"), b, 0o644)
 	}
 	fmt.Printf("%s tier=%s seed=%d cases=%d classes=%d verdicts=%v violations=%d known=%d inconclusive=%d wall=%.1fs\n",
-		p.ID, r.Tier, r.Seed, len(r.Cases), distinct, verdicts, nviol, len(knownSeen), len(r.Inconcl), wall.Seconds())
+		p.ID, r.Tier, r.Seed, len(r.Cases), distinct, verdicts, nviol, len(knownSeen), len(r.Inconcl)+len(r.CaseInconcl), wall.Seconds())
 	if nviol > 0 {
 		return 1
+	}
+	// A few cases the harness could not carry out (a plugin that did not come up
+	// on a loaded machine, ...) are reported but do not make the run inconclusive;
+	// many of them do.
+	if limit := max(3, len(r.Cases)/20); len(r.CaseInconcl) > limit {
+		r.Inconcl = append(r.Inconcl, fmt.Sprintf("%d of %d cases were inconclusive (limit %d), e.g. %s", len(r.CaseInconcl), len(r.Cases), limit, r.CaseInconcl[0]))
+	} else {
+		for i, s := range r.CaseInconcl {
+			if i < 5 {
+				fmt.Println("note: inconclusive case (tolerated):", trunc(s, 300))
+			}
+		}
 	}
 	if len(r.Inconcl) > 0 {
 		for i, s := range r.Inconcl {
